@@ -1162,13 +1162,36 @@ impl<'a> GeneratorState<'a> {
 
     fn generate_strobe_statement(&mut self, expr: &Expr, pos: usize) -> Result<(), Error> {
         match expr {
-            Expr::Identifier(name, _) => {
+            Expr::Identifier(name, sub) => {
                 let v = self.variable_or_error(name, pos)?;
                 match v.var_type {
                     VariableType::CharPtr => {
+                        // The address strobed: the one the name stands for, or the element a constant
+                        // subscript designates
+                        let offset = if let Expr::Nothing = **sub {
+                            0
+                        } else if let Expr::Integer(k) = **sub {
+                            if !v.var_const {
+                                return Err(self.compiler_state.syntax_error(
+                                    "Strobe only works on memory pointers",
+                                    pos,
+                                ));
+                            }
+                            if !(0..=0xffff).contains(&k) {
+                                return Err(self
+                                    .compiler_state
+                                    .syntax_error("Subscript out of range", pos));
+                            }
+                            k
+                        } else {
+                            return Err(self.compiler_state.syntax_error(
+                                "Strobe only works with a constant subscript",
+                                pos,
+                            ));
+                        };
                         // Strobes are protected, and thus cannot be optimized out
                         self.protected = true;
-                        self.asm(STA, &ExprType::Absolute(name.clone(), true, 0), pos, false)?;
+                        self.asm(STA, &ExprType::Absolute(name.clone(), true, offset), pos, false)?;
                         self.protected = false;
                         Ok(())
                     }
